@@ -24,7 +24,7 @@ echo "== demo with the change"; with=$(run_demo); echo "$with" | tail -2
 declare -A RES
 for c in $CHECKS; do
   rm -f /verif/replays/$c-1-quick.json /verif/replays/$c-1-thorough.json
-  r=$(cd /verif && VERIF_REPO=$WT timeout 3000 ./check $c quick 2>&1 | grep -E "VIOLATION" | head -2)
+  r=$(cd /verif && VERIF_REPO=$WT VERIF_NO_SEARCH=${SEED_QUICK_ONLY:-} timeout 3000 ./check $c quick 2>&1 | grep -E "VIOLATION" | head -2)
   tier=quick
   if ! echo "$r" | grep -q VIOLATION && [ -z "${SEED_QUICK_ONLY:-}" ]; then r=$(cd /verif && VERIF_REPO=$WT timeout 7200 ./check $c thorough 2>&1 | grep -E "VIOLATION" | head -3); tier=thorough; fi
   RES[$c]="$tier: ${r:-no violation reported}"
